@@ -1909,7 +1909,7 @@ func runC18(tier string, seed int64, outdir string, replay string) error {
 				}
 				byKind[k] = append(byKind[k], j)
 			}
-			special := g.r.Intn(4)
+			special := g.r.Intn(3)
 			var dels []int
 			for j, ev := range own {
 				if ev.Kind == 5 {
